@@ -4,7 +4,7 @@ sys.path.insert(0, os.path.join(HERE, 'lib'))
 import vrun, irb
 
 META = dict(
-    functions=['scanners.c: all 29 scan_* functions (Engine B: clang -O1 IR -> flat C, translation validated against the real functions on tests/MMD6Tests every run)'],
+    functions=['mmd.c: mmd_assign_ambidextrous_tokens_in_block', 'scanners.c: all 29 scan_* functions (Engine B: clang -O1 IR -> flat C, translation validated against the real functions on tests/MMD6Tests every run)'],
     stubs=['byte arena MEM[] with an explicit valid window [buf, buf+len] (NUL included) for the IR-derived scanners'],
     assumptions=['input is a NUL-terminated buffer; every byte value allowed'],
     outside=['epub.c, zip.c/miniz.c, textbundle.c, packaging, uthash macro bodies, argtable3, file.c I/O', 'defects that need more than N bytes or K tokens to trigger', 'interaction between units beyond the span invariant of C15'],
@@ -27,7 +27,14 @@ def scanner_harnesses(tier):
     return hs
 
 def harnesses(tier):
-    return scanner_harnesses(tier)
+    hs = scanner_harnesses(tier)
+    AN = 4 if tier == 'quick' else 6
+    hs.append(dict(name='c01_ambi', src='c01/ambi.c', defs=dict(N=AN), pool_off=True,
+                   units=['repo:mmd.c', 'repo:token.c', 'repo:object_pool.c', 'repo:stack.c', 'repo:char.c'],
+                   unwind=AN + 4, unwindset=['mmd_assign_ambidextrous_tokens_in_block:2'], timeout=1500, mem_gb=8, slice=True,
+                   bounds='every source of 1..%d bytes, one delimiter token of 14 look-around kinds at every offset (incl. first and last byte), all extension sets' % AN,
+                   desc='mmd_assign_ambidextrous_tokens_in_block: look-behind/look-ahead never leaves the source'))
+    return hs
 
 CLAIM = dict(
     text='Memory safety is decided by CBMC on the units the anchors name, with arbitrary input: every re2c scanner (via its LLVM IR) reads only inside '
